@@ -457,3 +457,237 @@ Proof.
   apply (nm_list x l par prv aft) with (e := (i, ci)); auto.
   apply Forall_forall. intros t _. apply nm_tree_all.
 Qed.
+
+(* ---------------------------------------------------------------- auxiliary facts *)
+Lemma leaf_no_child cm st x ndx i nd :
+  rep_st cm st -> cm x = Some ndx -> nkid ndx = None ->
+  In i (ids_st st) -> cm i = Some nd -> npar nd <> Some x.
+Proof.
+  intros R Hx Hk Hi Hnd E.
+  destruct (focus_some _ _ Hi) as ([frs o] & l1 & ti & l2 & F).
+  destruct (focus_cell _ _ _ _ _ _ _ _ R F) as [Hc Rp]. rewrite Hnd in Hc. inversion Hc; subst nd. cbn [npar] in E.
+  rewrite rep_plug in Rp. destruct Rp as (_ & Rf & _).
+  destruct frs as [|fr rest]; cbn [cpar] in E; [discriminate|]. inversion E; subst x.
+  cbn [rep_frames] in Rf. destruct Rf as (_ & Hfr & _). rewrite Hx in Hfr. inversion Hfr; subst ndx.
+  cbn [nkid] in Hk. destruct l1; discriminate.
+Qed.
+
+Lemma rho_invol a b x : a <> b -> rho a b (rho a b x) = x.
+Proof.
+  intros N. unfold rho.
+  destruct (Nat.eqb_spec x a) as [->|Na].
+  - rewrite (proj2 (Nat.eqb_neq b a)) by congruence. rewrite Nat.eqb_refl. reflexivity.
+  - destruct (Nat.eqb_spec x b) as [->|Nb].
+    + rewrite Nat.eqb_refl. reflexivity.
+    + rewrite (proj2 (Nat.eqb_neq x a) Na), (proj2 (Nat.eqb_neq x b) Nb). reflexivity.
+Qed.
+
+Lemma perm_rho a b (l : list nat) : a <> b -> NoDup l -> In a l -> In b l -> Permutation (map (rho a b) l) l.
+Proof.
+  intros N ND Ha Hb. apply NoDup_Permutation; [|exact ND|].
+  - apply FinFun.Injective_map_NoDup; [|exact ND]. intros x y E.
+    rewrite <- (rho_invol a b x N), <- (rho_invol a b y N). congruence.
+  - intros x. rewrite in_map_iff. split.
+    + intros (y & <- & Hy). unfold rho. destruct (y =? a); [exact Hb|]. destruct (y =? b); [exact Ha|exact Hy].
+    + intros Hx. exists (rho a b x). split; [apply rho_invol; exact N|].
+      unfold rho. destruct (x =? a); [exact Hb|]. destruct (x =? b); [exact Ha|exact Hx].
+Qed.
+
+Lemma rep_l_cell_some c par prv l aft i : rep_l c par prv l aft -> In i (ids_f l) -> exists nd, c i = Some nd.
+Proof.
+  intros R Hi. rewrite <- (keys_exp_l l par prv aft) in Hi. apply in_map_iff in Hi.
+  destruct Hi as ([i' nd] & E & Hin). cbn in E. subst i'.
+  unfold rep_l, repc in R. rewrite Forall_forall in R. exists nd. exact (R _ Hin).
+Qed.
+
+(* ---------------------------------------------------------------- OSwitch *)
+Lemma npar_focus c st x frs o l1 tx l2 nd :
+  rep_st c st -> focus x st = Some ((frs, o), l1, tx, l2) -> c x = Some nd -> npar nd = cpar frs.
+Proof.
+  intros R F Hnd. destruct (focus_cell _ _ _ _ _ _ _ _ R F) as [Hc _]. rewrite Hnd in Hc. inversion Hc. reflexivity.
+Qed.
+
+Lemma par_not_anc h s x y nd :
+  inv h s -> cells h x = Some nd -> mem y (x :: ancs x (lists s)) = false -> npar nd <> Some y.
+Proof.
+  intros I Hnd G E.
+  assert (Hin : In x (ids_st (lists s))) by (apply (i_dom _ _ I); rewrite Hnd; discriminate).
+  destruct (focus_some _ _ Hin) as ([frs o] & l1 & tx & l2 & F).
+  rewrite (npar_focus _ _ _ _ _ _ _ _ _ (i_rep _ _ I) F Hnd) in E.
+  unfold ancs in G. rewrite F in G. cbn [fst] in G.
+  destruct frs as [|fr rest]; cbn [cpar] in E; [discriminate|]. inversion E; subst y.
+  cbn [map mem existsb] in G. rewrite Nat.eqb_refl in G. rewrite orb_true_r in G. discriminate.
+Qed.
+
+Lemma step_switch a b : refines_step (OSwitch a b).
+Proof.
+  intros h s I. cbn [mstep sstep]. rewrite !(live_iff _ _ _ I).
+  destruct (Nat.eqb_spec a b) as [->|Nab].
+  { rewrite andb_diag. destruct (slive s b) eqn:Sl; cbn [fst snd]; [|eexists; split; [reflexivity|exact I]].
+    assert (Lb : live h b = true) by (rewrite (live_iff _ _ _ I); exact Sl).
+    rewrite (anc_guard h s b b I Lb). cbn [rbind mem existsb]. rewrite Nat.eqb_refl. cbn [orb andb negb].
+    unfold gnode_switch. rewrite Nat.eqb_refl. cbn [rbind]. exists h. split; [reflexivity|exact I]. }
+  destruct (slive s a) eqn:Sa.
+  2:{ cbn [andb]. unfold cut. rewrite (slive_false_focus _ _ Sa).
+      destruct (mem a (b :: ancs b (lists s)) || mem b (a :: ancs a (lists s))); cbn [fst snd];
+        eexists; (split; [reflexivity|exact I]). }
+  destruct (slive s b) eqn:Sb.
+  2:{ cbn [andb].
+      assert (Eb : forall st, (forall i, In i (ids_st st) -> In i (ids_st (lists s))) -> focus b st = None).
+      { intros st Hst. destruct (focus b st) as [[[[c x] t] y]|] eqn:F; [|reflexivity].
+        exfalso. apply focus_in in F. apply Hst in F. apply mem_in in F. unfold slive in Sb. congruence. }
+      destruct (mem a (b :: ancs b (lists s)) || mem b (a :: ancs a (lists s))); cbn [fst snd];
+        [eexists; split; [reflexivity|exact I]|].
+      destruct (cut a (lists s)) as [[ta s1]|] eqn:Ca; [|eexists; split; [reflexivity|exact I]].
+      destruct (cut_facts _ _ _ _ _ (inv_nodup _ _ I) (i_rep _ _ I) Ca) as (_ & _ & _ & _ & Pa & _).
+      assert (Cb : cut b s1 = None).
+      { unfold cut. rewrite (Eb s1); [reflexivity|].
+        intros i Hi. eapply Permutation_in; [symmetry; exact Pa|]. apply in_or_app. auto. }
+      rewrite Cb. cbn [fst snd]. eexists; split; [reflexivity|exact I]. }
+  cbn [andb].
+  assert (La : live h a = true) by (rewrite (live_iff _ _ _ I); exact Sa).
+  assert (Lb : live h b = true) by (rewrite (live_iff _ _ _ I); exact Sb).
+  rewrite (anc_guard h s a b I Lb). cbn [rbind]. rewrite (anc_guard h s b a I La). cbn [rbind].
+  cbn [negb]. rewrite andb_true_r.
+  destruct (mem a (b :: ancs b (lists s)) || mem b (a :: ancs a (lists s))) eqn:G;
+    [cbn [fst snd]; eexists; split; [reflexivity|exact I]|].
+  apply orb_false_elim in G. destruct G as [Ga Gb].
+  pose proof (inv_nodup _ _ I) as ND. pose proof (i_rep _ _ I) as R.
+  apply mem_in in Sa. apply mem_in in Sb.
+  (* cut a *)
+  destruct (focus_some _ _ Sa) as (ca & l1a & ta0 & l2a & Fa).
+  assert (Ca : cut a (lists s) = Some (ta0, plug ca (l1a ++ T (tid ta0) (tname ta0) (tval ta0) [] :: l2a)))
+    by (unfold cut; rewrite Fa; reflexivity).
+  rewrite Ca. set (s1 := plug ca _) in *.
+  destruct (cut_facts _ _ _ _ _ ND R Ca) as (Eta & R1 & (nda & Hnda & Hka & Hna & Hva) & Rka & Pa & Ha1).
+  destruct ta0 as [a' na va ka]. cbn [tid tname tval tkids] in *. subst a'.
+  assert (NDa : NoDup (ids_st s1 ++ ids_f ka)) by (eapply Permutation_NoDup; [exact Pa|exact ND]).
+  destruct (NoDup_app_inv _ _ NDa) as (ND1 & NDka & Dja).
+  assert (Lka : S (fsize ka) <= fuel_of h).
+  { rewrite fsize_ids. pose proof (inv_length _ _ I) as L. rewrite (Permutation_length Pa), app_length in L.
+    assert (1 <= length (ids_st s1)) by (destruct (ids_st s1); [contradiction|cbn; lia]). unfold fuel_of. lia. }
+  assert (Nbka : ~ In b (ids_f ka)).
+  { intros K. pose proof (below_anc h a ka b Rka K Lka) as E. rewrite (anc_guard h s a b I Lb) in E.
+    inversion E. congruence. }
+  assert (Hb1 : In b (ids_st s1)).
+  { eapply Permutation_in in Sb; [|exact Pa]. apply in_app_or in Sb. destruct Sb; [assumption|contradiction]. }
+  (* cut b *)
+  destruct (focus_some _ _ Hb1) as (cb & l1b & tb0 & l2b & Fb).
+  assert (Cb : cut b s1 = Some (tb0, plug cb (l1b ++ T (tid tb0) (tname tb0) (tval tb0) [] :: l2b)))
+    by (unfold cut; rewrite Fb; reflexivity).
+  rewrite Cb. set (s2 := plug cb _) in *.
+  destruct (cut_facts _ _ _ _ _ ND1 R1 Cb) as (Etb & R2 & (ndb & Hndb & Hkb & Hnb & Hvb) & Rkb & Pb & Hb2).
+  destruct tb0 as [b' nb vb kb]. cbn [tid tname tval tkids] in *. subst b'.
+  rewrite (mask_other _ _ _ (not_eq_sym Nab)) in Hndb.
+  assert (NDb : NoDup (ids_st s2 ++ ids_f kb)) by (eapply Permutation_NoDup; [exact Pb|exact ND1]).
+  destruct (NoDup_app_inv _ _ NDb) as (ND2 & NDkb & Djb).
+  assert (Lkb : S (fsize kb) <= fuel_of h).
+  { rewrite fsize_ids. pose proof (inv_length _ _ I) as L. rewrite (Permutation_length Pa), app_length in L.
+    rewrite (Permutation_length Pb), app_length in L.
+    assert (1 <= length (ids_st s2)) by (destruct (ids_st s2); [contradiction|cbn; lia]). unfold fuel_of. lia. }
+  assert (Nakb : ~ In a (ids_f kb)).
+  { intros K.
+    assert (E : anc_or_eq (fuel_of h) (mkH (mask (cells h) a) (nextid h) (freed h)) b a = ROk true).
+    { apply (below_anc (mkH (mask (cells h) a) (nextid h) (freed h)) b kb a Rkb K). exact Lkb. }
+    rewrite anc_mask in E. rewrite <- (heap_eta h) in E. rewrite (anc_guard h s b a I La) in E.
+    inversion E. congruence. }
+  assert (Rkb' : rep_l (cells h) (Some b) None kb None) by (apply (rep_l_mask (cells h) a); assumption).
+  assert (Ha2 : In a (ids_st s2)).
+  { eapply Permutation_in in Ha1; [|exact Pb]. apply in_app_or in Ha1. destruct Ha1; [assumption|contradiction]. }
+  assert (Nbkb : ~ In b (ids_f kb)) by (intros K; exact (Djb _ Hb2 K)).
+  assert (Naka : ~ In a (ids_f ka)) by (intros K; exact (Dja _ Ha1 K)).
+  assert (Dkk : forall i, In i (ids_f ka) -> In i (ids_f kb) -> False).
+  { intros i Hi Hj. apply (Dja i); [|exact Hi]. eapply Permutation_in; [symmetry; exact Pb|]. apply in_or_app. auto. }
+  (* the model *)
+  assert (LK : forall i ci, cells h i = Some ci -> links_at (cells h) i ci) by (intros i ci Hi; exact (links_inv h s i ci I Hi)).
+  assert (PAb : npar nda <> Some b) by exact (par_not_anc h s a b nda I Hnda Gb).
+  assert (PBa : npar ndb <> Some a) by exact (par_not_anc h s b a ndb I Hndb Ga).
+  destruct (switch_cells h a b nda ndb Nab Hnda Hndb LK PAb PBa) as (h' & E' & M' & C').
+  rewrite E'. cbn [rbind].
+  pose proof (switch_sw h a b nda ndb Nab Hnda Hndb LK PAb PBa h' C') as SW.
+  pose proof (switch_same h a b nda ndb Hnda Hndb LK h' C') as SAME.
+  pose proof (switch_dead h a b nda ndb Hnda Hndb h' C') as DEAD.
+  set (c' := cells h') in *.
+  destruct (lk_self _ _ _ (LK a nda Hnda)) as (_ & _ & SelfA & _).
+  destruct (lk_self _ _ _ (LK b ndb Hndb)) as (_ & _ & SelfB & _).
+  assert (Rb_a : rho a b b = a) by (unfold rho; rewrite (proj2 (Nat.eqb_neq b a)) by congruence; rewrite Nat.eqb_refl; reflexivity).
+  assert (Ra_b : rho a b a = b) by (unfold rho; rewrite Nat.eqb_refl; reflexivity).
+  (* the two nodes themselves *)
+  destruct (SW b ndb Hndb PBa SelfB) as (ca' & owna & Hca' & Howna & Ca1 & Ca2 & Ca3 & _ & Ca5 & Ca6 & Ca7).
+  rewrite Rb_a in Hca', Howna. rewrite Hnda in Howna. inversion Howna; subst owna. clear Howna.
+  specialize (Ca5 (or_intror eq_refl)).
+  destruct (SW a nda Hnda SelfA PAb) as (cb' & ownb & Hcb' & Hownb & Cb1 & Cb2 & Cb3 & _ & Cb5 & Cb6 & Cb7).
+  rewrite Ra_b in Hcb', Hownb. rewrite Hndb in Hownb. inversion Hownb; subst ownb. clear Hownb.
+  specialize (Cb5 (or_introl eq_refl)).
+  (* the detached child lists are untouched *)
+  assert (Same_l : forall l par, rep_l (cells h) par None l None -> ~ In a (ids_f l) -> ~ In b (ids_f l) ->
+                                 rep_l c' par None l None).
+  { intros l par Rl Hal Hbl. eapply rep_l_frame; [exact Rl|]. intros i Hi.
+    destruct (rep_l_cell_some _ _ _ _ _ _ Rl Hi) as (ci & Hci). rewrite Hci.
+    apply (SAME i ci Hci); [intros ->; contradiction|intros ->; contradiction|].
+    intros x [-> | ->]; [apply (rep_l_no_mention (cells h) a par None l None i ci Rl Hal)|
+                         apply (rep_l_no_mention (cells h) b par None l None i ci Rl Hbl)]; auto; discriminate. }
+  assert (Rka' : rep_l c' (Some a) None ka None) by (apply Same_l; assumption).
+  assert (Rkb2 : rep_l c' (Some b) None kb None) by (apply Same_l; assumption).
+  (* the skeleton: the two leaves have changed places *)
+  assert (R3 : rep_st (mask (mask c' b) a) (exch_st a na va b nb vb s2)).
+  { apply (rep_exch a na va b nb vb (mask (mask (cells h) a) b) _ s2 R2).
+    intros i nd Hi Hnd.
+    assert (Nka : ~ In i (ids_f ka)).
+    { intros K. apply (Dja i); [|exact K]. eapply Permutation_in; [symmetry; exact Pb|]. apply in_or_app. auto. }
+    assert (Nkb : ~ In i (ids_f kb)) by (intros K; exact (Djb _ Hi K)).
+    (* not a child of a or b: those are leaves of the skeleton *)
+    assert (Ma : (mask (mask (cells h) a) b) a = Some (set_kid None nda)).
+    { rewrite (mask_other _ _ _ Nab), mask_same, Hnda. reflexivity. }
+    assert (Mb : (mask (mask (cells h) a) b) b = Some (set_kid None ndb)).
+    { rewrite mask_same, (mask_other _ _ _ (not_eq_sym Nab)), Hndb. reflexivity. }
+    pose proof (leaf_no_child _ _ a _ i nd R2 Ma eq_refl Hi Hnd) as Npa.
+    pose proof (leaf_no_child _ _ b _ i nd R2 Mb eq_refl Hi Hnd) as Npb.
+    destruct (Nat.eq_dec i a) as [->|Nia]; [|destruct (Nat.eq_dec i b) as [->|Nib]].
+    - rewrite Ma in Hnd. inversion Hnd; subst nd. rewrite Ra_b.
+      rewrite (mask_other _ _ _ (not_eq_sym Nab)), mask_same. fold c'. rewrite Hcb'. cbn [option_map]. f_equal.
+      unfold ren_nd. cbn [set_kid nnext nprev npar nkid nname nval]. rewrite Nat.eqb_refl.
+      rewrite <- Cb1, <- Cb2, <- Cb3, <- Hnb, <- Hvb, <- Cb6, <- Cb7. destruct cb'; reflexivity.
+    - rewrite Mb in Hnd. inversion Hnd; subst nd. rewrite Rb_a.
+      rewrite mask_same, (mask_other _ _ _ Nab). fold c'. rewrite Hca'. cbn [option_map]. f_equal.
+      unfold ren_nd. cbn [set_kid nnext nprev npar nkid nname nval].
+      rewrite (proj2 (Nat.eqb_neq b a)) by congruence. rewrite Nat.eqb_refl.
+      rewrite <- Ca1, <- Ca2, <- Ca3, <- Hna, <- Hva, <- Ca6, <- Ca7. destruct ca'; reflexivity.
+    - rewrite (mask_other _ _ _ Nib), (mask_other _ _ _ Nia) in Hnd.
+      destruct (SW i nd Hnd Npa Npb) as (ci' & own & Hci' & Hown & F1 & F2 & F3 & F4 & _ & F6 & F7).
+      assert (Er : rho a b i = i).
+      { unfold rho. rewrite (proj2 (Nat.eqb_neq i a) Nia), (proj2 (Nat.eqb_neq i b) Nib). reflexivity. }
+      rewrite Er in *. rewrite Hnd in Hown. inversion Hown; subst own.
+      rewrite (mask_other _ _ _ Nia), (mask_other _ _ _ Nib). fold c'. rewrite Hci'. f_equal.
+      unfold ren_nd. rewrite (proj2 (Nat.eqb_neq i a) Nia), (proj2 (Nat.eqb_neq i b) Nib).
+      rewrite <- F1, <- F2, <- F3, <- (F4 Nia Nib), <- F6, <- F7. destruct ci'; reflexivity. }
+  set (s3 := exch_st a na va b nb vb s2) in *.
+  assert (P3 : Permutation (ids_st s3) (ids_st s2)).
+  { unfold s3. rewrite ids_exch_st. apply perm_rho; assumption. }
+  (* graft ka under a *)
+  destruct (graft_rep (mask c' b) s3 a ka R3) as (s4 & G4 & R4 & P4 & Ha4).
+  { rewrite (mask_other _ _ _ Nab). fold c'. rewrite Hca'. eexists. split; [reflexivity|]. rewrite Ca5. exact Hka. }
+  { apply (rep_l_mask c' b); assumption. }
+  { eapply Permutation_in; [symmetry; exact P3|exact Ha2]. }
+  { assert (NDs : NoDup (ids_st s2 ++ ids_f ka)).
+    { apply NoDup_app_intro; [exact ND2|exact NDka|]. intros i H1 H2. apply (Dja i); [|exact H2].
+      eapply Permutation_in; [symmetry; exact Pb|]. apply in_or_app. auto. }
+    eapply Permutation_NoDup; [|exact NDs]. rewrite P3. reflexivity. }
+  rewrite G4.
+  (* graft kb under b *)
+  assert (Hb4 : In b (ids_st s4)).
+  { eapply Permutation_in; [symmetry; exact P4|]. apply in_or_app. left.
+    eapply Permutation_in; [symmetry; exact P3|exact Hb2]. }
+  destruct (graft_rep c' s4 b kb R4) as (s5 & G5 & R5 & P5 & _).
+  { fold c'. rewrite Hcb'. eexists. split; [reflexivity|]. rewrite Cb5. exact Hkb. }
+  { exact Rkb2. }
+  { exact Hb4. }
+  { eapply Permutation_NoDup; [|exact NDa]. rewrite P4, P3. symmetry. rewrite Pb.
+    rewrite <- !app_assoc. apply Permutation_app_head. apply Permutation_app_comm. }
+  rewrite G5. cbn [fst snd]. exists h'. split; [reflexivity|].
+  apply (inv_relink h s h' s5 I M' R5).
+  - rewrite P5, P4, P3, Pa, Pb. rewrite <- !app_assoc. apply Permutation_app_head. apply Permutation_app_comm.
+  - intros i Hi. fold c'. destruct (cells h i) as [ci|] eqn:Hci.
+    + exfalso. apply Hi. apply (i_dom _ _ I). rewrite Hci. discriminate.
+    + apply DEAD. exact Hci.
+Qed.
